@@ -36,6 +36,8 @@ func C03(r *core.Run) {
 	rule036(r)
 	rule037(r)
 	rule038(r)
+	rule039(r)
+	rule044(r)
 	rule105(r)
 	rule027(r)
 }
@@ -878,4 +880,62 @@ func rule038(r *core.Run) {
 			"the entries collected by walking the directory tree are returned in walk order: keys are not in byte order (a/b before a.txt and a-1)")
 	}
 	r.Floor("R03.8", 2, "tree-walking listings")
+}
+
+// rule039 — a bolt cursor is only moved by calls whose landing item is examined.
+func rule039(r *core.Run) {
+	r.Rule("R03.9", "in the bolt backend's listing every cursor-moving call (First, Seek, Next, Prev, Last) hands the item it lands on to the loop (its key result is used): a repositioning whose result is discarded is followed by the loop's own advance, which steps past the item — a live key is never examined; and the fs DeleteMulti/DeleteObject paths hand pruneEmptyDirs the object's path, not a directory of it (the helper itself starts at the parent)")
+	n := 0
+	if lb := mustFunc(r, "s3bolt.(*Backend).ListBucket"); lb != nil {
+		for _, f := range core.Closures(lb) {
+			fn := f
+			core.Instrs(fn, func(in ssa.Instruction) {
+				c, ok := in.(*ssa.Call)
+				if !ok {
+					return
+				}
+				cn := r.P.CalleeName(c)
+				if !strings.HasPrefix(cn, "(*go.etcd.io/bbolt.Cursor).") {
+					return
+				}
+				switch strings.TrimPrefix(cn, "(*go.etcd.io/bbolt.Cursor).") {
+				case "First", "Seek", "Next", "Prev", "Last":
+				default:
+					return
+				}
+				n++
+				used := false
+				if refs := c.Referrers(); refs != nil {
+					for _, u := range *refs {
+						if ex, ok := u.(*ssa.Extract); ok && ex.Index == 0 && ex.Referrers() != nil && len(*ex.Referrers()) > 0 {
+							used = true
+						}
+					}
+				}
+				r.Check(used, "R03.9", key(fname(r, fn), "cursor move examined", cn, sprintf("#%d", n)), pos(r, c), "the key the cursor lands on is used",
+					"the cursor is repositioned with "+cn+" and the item it lands on is discarded: the loop's advance then steps past it, so the first key after the jump is never listed")
+			})
+		}
+	}
+	// pruneEmptyDirs receives the object's path
+	if pe := optFunc(r, "s3afero.pruneEmptyDirs"); pe != nil {
+		for _, c := range r.P.StaticCallers(pe) {
+			n++
+			args := c.Common().Args
+			if len(args) < 3 {
+				continue
+			}
+			as := r.P.SliceOf(args[2], core.SliceOpts{Depth: -1})
+			bad := as.Has("call:path.Dir") || as.Has("call:path/filepath.Dir")
+			// the value must not come out of a container of directories either (a set collected during a batch)
+			if _, isParam := core.Forward(args[2]).(*ssa.Parameter); !isParam && !as.Has("call:path.Join") && !as.HasPrefix("param:") {
+				bad = true
+			}
+			r.Check(!bad, "R03.9", key(fname(r, c.Parent()), "prune starts at the object's path"), pos(r, c.(ssa.Instruction)), "pruneEmptyDirs(fs, root, <object path>)",
+				"pruneEmptyDirs is handed a directory (a path.Dir result or a collected directory) instead of the deleted object's path: it starts one level too high and leaves the emptied directory behind as a phantom common prefix")
+		}
+	}
+	if n < 4 {
+		r.Unresolved("R03.9: %d cursor moves / prune calls found (expected at least 4)", n)
+	}
 }
